@@ -148,10 +148,15 @@ PROPS["C17"] = dict(
 
 PROPS["C06"] = dict(
     level="proof",
-    technique="contract-based: distance dispatch and compass bearing post-conditions, ghost-witness invariant of the real line sweep _process_proximity_line (pyvc VCs -> z3), metric lemmas; exactness / completeness and the four-sweep glue bounded (exhaustive small grids)",
-    not_decided=["exactness / completeness of the four-sweep propagation beyond the enumerated grids (known approximation)",
-                 "the glue _process._process_numpy (nested jitted closure) is not under contract: bounded",
-                 "GREAT_CIRCLE inside the sweep: bounded"],
+    technique="contract-based deductive verification (pyvc VCs -> z3): distance dispatch and compass bearing post-conditions; ghost-witness "
+              "invariant of the real line sweep _process_proximity_line; the four-sweep glue _process._process_numpy (nested jitted closure, "
+              "all 16 loops, four modular calls of the line sweep with ghost witnesses saved per cell): every non-NaN distance is the "
+              "distance to an actual target within max_distance, targets have distance 0, allocation / direction are computed from that "
+              "same witness and are NaN exactly where the distance is; metric lemmas; nearest-ness (exactness / completeness) bounded "
+              "(exhaustive small grids)",
+    not_decided=["exactness / completeness of the four-sweep propagation beyond the enumerated grids (known approximation): bounded",
+                 "GREAT_CIRCLE inside the sweep and the glue (contracts cover the planar metrics): bounded",
+                 "float32 storage of distances / allocation values (machine arithmetic treated as mathematical; see the known finding)"],
     assumptions=[],
     trusted_base=[],
     bounded=[("c06_proximity_soundness", {"quick": 40, "thorough": 400}), ("c06_proximity_exact_small_grids", {"quick": 60, "thorough": 900}),
